@@ -131,7 +131,12 @@ let label_of (o : outs) (tok : string) (idx : int) : label =
    traffic), what the API handler does, its response (API traffic). *)
 let labels_of (o : outs) (tok : string) (idx : int) : label list =
   let api_msg = { mid = nat_of_int idx; mapi = true; mcond = (fun _ -> false); mhit = (fun _ -> true) } in
-  if String.length tok = 3 && tok.[0] = 'A' then begin
+  if tok = "PX" then [Refused]
+  else if String.length tok > 3 && String.sub tok 0 2 = "AP" then
+    [Traffic (Req, api_msg); Configure (parse_tree (String.sub tok 3 (String.length tok - 3))); Traffic (Res, api_msg)]
+  else if String.length tok > 1 && tok.[0] = 'P' then
+    [Configure (parse_tree (String.sub tok 1 (String.length tok - 1)))]
+  else if String.length tok = 3 && tok.[0] = 'A' then begin
     let inner = (match tok.[1] with 'Q' -> [Query] | 'R' -> [Reset] | 'C' -> [] | _ -> raise (Bad ("op " ^ tok))) in
     [Traffic (Req, api_msg)] @ inner @ [Traffic (Res, api_msg)]
   end
@@ -190,7 +195,10 @@ let judge_seq (ins : string list) (outs : string list) : verdict =
         (* status of refused calls (405) and of GET /configure through the proxy (200) *)
         let bad_status = List.concat (List.mapi (fun i t ->
             let idx = i + 2 in
-            let want = if String.length t > 3 && t.[0] = 'X' then Some ("405", "refused_call_status")
+            let want = if t = "PX" then Some ("400", "refused_call_status")
+              else if String.length t > 1 && t.[0] = 'P' then Some ("200", "api_call_status")
+              else if String.length t > 3 && String.sub t 0 2 = "AP" then Some ("200", "api_call_status")
+              else if String.length t > 3 && t.[0] = 'X' then Some ("405", "refused_call_status")
               else if String.length t = 3 && t.[0] = 'A' && t.[1] = 'C' then Some ("200", "api_call_status") else None in
             match want with
             | None -> []
@@ -228,8 +236,15 @@ let judge_seq (ins : string list) (outs : string list) : verdict =
                   (* a refused reset that was carried out all the same? *)
                   let h_refused_done = List.concat (List.mapi (fun i t ->
                       if String.length t > 3 && String.sub t 0 3 = "XR:" then [Reset] else labels_of o t (i + 2)) ops) in
+                  (* verifiers configured when the wrong answer was given *)
+                  let cur = List.fold_left (fun acc (p, l) -> match l with
+                      | Configure c' when p < qp -> c' | _ -> acc) c labels in
+                  let cur_ids = List.map int_of_nat (leaf_ids (root Req cur) @ leaf_ids (root Res cur)) in
+                  let reconfigured = List.exists (fun (p, l) -> p < qp && (match l with Configure _ -> true | _ -> false)) labels in
+                  let stale = List.exists (fun (v, _) -> not (List.mem (int_of_nat v) cur_ids)) g in
                   let clause =
-                    if List.mem Refused h && c13_ok c h_refused_done obs then "refused_call_no_effect"
+                    if reconfigured && stale then "reconfigure_replaces_tree"
+                    else if List.mem Refused h && c13_ok c h_refused_done obs then "refused_call_no_effect"
                     else classify labels qp w g in
                   let pin = if model_outputs pinned c h = obs then " (answers are those of the model of the pinned, unrepaired code)" else "" in
                   VPropfail (clause, Printf.sprintf "query-at-op=%d want=%s got=%s%s" qp (pr_failures w) (pr_failures g) pin)
